@@ -479,6 +479,10 @@ def keyword_cases():
     return C
 
 
+class _ShapeMismatch(Exception):
+    pass
+
+
 def _keyword_results(C):
     """[(name, src, mode, verdict, detail)] ; verdict in {raised, correct, undecided, WRONG}."""
     from ..oracles import numjac, Untrusted
@@ -508,7 +512,10 @@ def _keyword_results(C):
                         for k in range(m):
                             b = onp.zeros(val.shape)
                             b.reshape(-1)[k] = 1.0
-                            J[k] = onp.asarray(vjp(b if val.shape else 1.0), dtype=float).reshape(-1)
+                            gk = vjp(b if val.shape else 1.0)
+                            if onp.shape(gk) != x.shape:
+                                raise _ShapeMismatch("gradient has shape %r, the argument %r" % (onp.shape(gk), x.shape))
+                            J[k] = onp.asarray(gk, dtype=float).reshape(-1)
                     else:
                         jvp = ag.make_jvp(f_a)(x)
                         J = onp.zeros((m, n))
@@ -516,6 +523,8 @@ def _keyword_results(C):
                             t = onp.zeros(x.shape)
                             t.reshape(-1)[j] = 1.0
                             val, tv = jvp(t)
+                            if onp.shape(tv) != y0.shape:
+                                raise _ShapeMismatch("tangent has shape %r, the output %r" % (onp.shape(tv), y0.shape))
                             J[:, j] = onp.asarray(tv, dtype=float).reshape(-1)
                     if onp.asarray(val, dtype=float).shape != y0.shape or not onp.allclose(onp.asarray(val, dtype=float), y0, rtol=1e-6, atol=1e-9, equal_nan=True):
                         out.append((name, src, mode, "WRONG", "primal differs from NumPy"))
@@ -523,6 +532,8 @@ def _keyword_results(C):
                         out.append((name, src, mode, "correct", None))
                     else:
                         out.append((name, src, mode, "WRONG", "autograd %s vs numerical %s" % (onp.round(J, 5).tolist(), onp.round(Jn, 5).tolist())))
+                except _ShapeMismatch as e:
+                    out.append((name, src, mode, "WRONG", str(e)))
                 except Exception as e:
                     out.append((name, src, mode, "raised", type(e).__name__))
     return out
